@@ -274,8 +274,8 @@ func (f *Formatter) formatTableProperties(props []*ast.TableProperty) string {
 			Leading:      f.formatComment(prop.Leading, "\n", 1),
 			Trailing:     f.trailing(prop.Trailing),
 			Operator:     ": ",
-			Key:          f.indent(1) + prop.Key.String(),
-			Value:        prop.Value.String(),
+			Key:          f.indent(1) + f.formatTableKey(prop.Key),
+			Value:        f.formatExpression(prop.Value).String(),
 			EndCharacter: ",",
 		}
 		lines = append(lines, line)
@@ -341,6 +341,16 @@ func (f *Formatter) formatRatecounterDeclaration(decl *ast.RatecounterDeclaratio
 		Name:   decl.Name.Value,
 		Buffer: buf.String(),
 	}
+}
+
+// Format table property key with keeping the source literal (escape sequences must not be decoded)
+func (f *Formatter) formatTableKey(key *ast.String) string {
+	literal := key.String()
+	if !key.LongString {
+		// ast's String() prints the decoded value, replace it with the original token literal
+		literal = strings.Replace(literal, `"`+key.Value+`"`, `"`+key.Token.Literal+`"`, 1)
+	}
+	return literal
 }
 
 // Format subroutine declaration
